@@ -15,6 +15,7 @@ type ForInfo struct {
 	Nested, ZeroCount, EquCount, CounterArith, Sequential           bool
 	LabelUsedInside, LabelUsedOutside, BodyStartsWithFor, NoCounter bool
 	EquBetweenBlocks, LabelledBodyStartsWithBareFor, ChainedEqu     bool
+	EquInsideBlock                                                  bool
 }
 
 type forGen struct {
@@ -310,7 +311,21 @@ func ForProgram(t *rapid.T, cfg AsmConfig) (rc.Program, ForInfo) {
 	for i := 0; i < nTop; i++ {
 		for k, e := range equItems {
 			if equPos[k] == i {
-				items = append(items, e)
+				if rapid.IntRange(0, 4).Draw(t, "equinblock") == 0 {
+					// the definition stands inside a block that is emitted once; what follows may use it
+					g.info.EquInsideBlock = true
+					w := rc.Item{Kind: rc.KFor, Expr: rc.Toks(rc.N(1)), Body: []rc.Item{e}}
+					if rapid.Bool().Draw(t, "equinblockctr") {
+						w.Counter = fmt.Sprintf("i%d", g.nCounter)
+						g.nCounter++
+					}
+					if rapid.Bool().Draw(t, "equinblockinstr") {
+						w.Body = append(w.Body, g.instr(nil, nil))
+					}
+					items = append(items, w)
+				} else {
+					items = append(items, e)
+				}
 				g.equs = append(g.equs, e.Labels[0])
 				if i > 0 {
 					g.info.EquBetweenBlocks = true
